@@ -1,0 +1,23 @@
+//go:build verif
+
+package stream
+
+// Contracts checked by /verif (govc). Comment-only: no executable code.
+
+//@ func (*stream).setOffset
+//@ props C01 C04 C05 C14
+//@ requires s != nil && s.vbIDRange != nil && s.offsets != nil && s.dirtyOffsets != nil && s.consumer != nil && offset != nil
+//@ let inr = old(s.vbIDRange.Start <= vbID && vbID <= s.vbIDRange.End)
+//@ let has0 = old(has(s.offsets, vbID))
+//@ let curSeq = old(s.offsets[vbID].SeqNo)
+//@ let moves = inr && (!has0 || curSeq < offset.SeqNo)
+//@ ensures.range[C04] !inr ==> unchanged(s.offsets) && unchanged(s.dirtyOffsets) && calls(models.Consumer.TrackOffset) == 0
+//@ ensures.regress[C04] inr && has0 && curSeq > offset.SeqNo ==> unchanged(s.offsets) && unchanged(s.dirtyOffsets) && calls(models.Consumer.TrackOffset) == 0
+//@ ensures.advance[C04,C01] moves ==> stored(s.offsets, vbID, offset)
+//@ ensures.track[C04] moves ==> calls(models.Consumer.TrackOffset) == 1 && arg(models.Consumer.TrackOffset, 0, recv) == old(s.consumer) && arg(models.Consumer.TrackOffset, 0, vbID) == vbID && arg(models.Consumer.TrackOffset, 0, offset) == offset
+//@ ensures.equal[C04] inr && has0 && curSeq == offset.SeqNo ==> unchanged(s.offsets) || stored(s.offsets, vbID, offset)
+//@ ensures.monotone[C04] has0 ==> has(s.offsets, vbID) && s.offsets[vbID].SeqNo >= curSeq
+//@ ensures.dirty[C05] moves && dirty ==> stored(s.dirtyOffsets, vbID, true)
+//@ ensures.clean[C14] !dirty ==> unchanged(s.dirtyOffsets)
+//@ ensures.flag s.anyDirtyOffset == old(s.anyDirtyOffset)
+//@ modifies content(s.offsets), content(s.dirtyOffsets), calls(models.Consumer.TrackOffset)
